@@ -903,6 +903,45 @@ def work_callables(chunk):
     return acc
 
 
+# -- options given explicitly as None --------------------------------------------------------------------------
+# every step option documents None as "the default": passing None explicitly is the same request as leaving the option
+# out (a smooth nonlinear map; closed-form Jacobian)
+
+NONE_OPTIONS = [dict(num_steps=None), dict(step_ratio=None), dict(step_nom=None), dict(step=None),
+                dict(num_steps=None, step_ratio=None, step_nom=None)]
+
+
+def work_none_options(chunk):
+    import numdifftools as nd
+    acc = fw.Acc()
+    x = np.array([0.4, -0.9])
+
+    def f(t):
+        return np.array([np.exp(0.5 * t[0]) * np.sin(t[1]), t[0] * t[0] * t[1] + np.cos(t[1])])
+    J = np.array([[0.5 * math.exp(0.2) * math.sin(-0.9), math.exp(0.2) * math.cos(-0.9)],
+                  [2 * 0.4 * -0.9, 0.16 - math.sin(-0.9)]])
+    for oi, method, order in chunk:
+        opts = NONE_OPTIONS[oi]
+        for cls, fun, want in (('Jacobian', f, J), ('Gradient', lambda t: f(t)[0], J[0])):
+            status, val = call(lambda: getattr(nd, cls)(fun, method=method, order=order, **opts)(x))
+            case = ('none-options', oi, method, order, cls)
+            jc = dict(part='none-options', opts=oi, method=method, order=order, cls=cls)
+            if status != 'ok':
+                acc.case(case, nontrivial=True, cell='none-options/%d' % oi, outcome=status)
+                acc.violation('C03:%s:%s:options-given-as-None' % (cls, status), jc, '%s(f, method=%r, order=%d, %r): %s'
+                              % (cls, method, order, opts, val), 1)
+                continue
+            err = float(np.max(np.abs(np.asarray(val) - want))) if np.shape(val) == np.shape(want) else float('inf')
+            ok = err <= 1e-6
+            acc.case(case, nontrivial=True, cell='none-options/%d' % oi, outcome=ok)
+            acc.maxi('none-options/worst error over 1e-6', err / 1e-6)
+            if not ok:
+                acc.violation('C03:%s:envelope:%s:options-given-as-None' % (cls, method), jc,
+                              '%s(f, method=%r, order=%d, %r)(%r): max error %.3g > 1e-6; got %r, exact %r'
+                              % (cls, method, order, opts, x.tolist(), err, np.asarray(val).tolist(), np.asarray(want).tolist()), 1)
+    return acc
+
+
 # -- functions with a limited domain ---------------------------------------------------------------------
 # f is differentiable at x but only defined on part of R^n (log, sqrt): the largest default steps leave the domain
 # in one direction, so SOME rows of SOME entries are NaN.  Those entries must still be resolved from their valid rows,
@@ -973,7 +1012,7 @@ def required_cells(tier):
     req += ['grad/form=%s' % f for f in GRAD_FORMS] + ['grad/size1', 'grad/size>1']
     req += ['grad/method=%s/order=%d' % (me, o) for me in METHODS for o in ORDERS]
     req += ['outputs/readonly', 'outputs/memo'] + ['far-feature/%s' % me for me in ('central', 'forward', 'backward')] + \
-        ['callable/%s' % f for f in CALLABLE_FORMS]
+        ['callable/%s' % f for f in CALLABLE_FORMS] + ['none-options/%d' % i for i in range(len(NONE_OPTIONS))]
     req += ['select/map=%s' % mname for mname in SELECT_MAPS] + ['jac/step_ratio=%r' % r for r in RATIOS]
     req += ['dd/v=%s' % v for v in V_KINDS] + ['dd/vform=%s' % f for f in V_FORMS]
     req += ['dd/method=%s/order=%d' % (me, o) for me in METHODS for o in ORDERS]
@@ -991,6 +1030,7 @@ def run(ctx):
     acc.merge(ctx.pmap(work_far_feature, [(me, o, k, j) for me in ('central', 'forward', 'backward') for o in ORDERS
                                           for k in range(1, 13) for j in range(3)], chunk=6))
     acc.merge(ctx.pmap(work_callables, [(f, me, o) for f in CALLABLE_FORMS for me in METHODS for o in ORDERS], chunk=3))
+    acc.merge(ctx.pmap(work_none_options, [(oi, me, o) for oi in range(len(NONE_OPTIONS)) for me in METHODS for o in ORDERS], chunk=5))
     acc.merge(ctx.pmap(work_partial_domain, [(x0, me, o) for x0 in (0.05, 0.3) for me in ('central', 'backward') for o in ORDERS], chunk=2))
     acc.merge(ctx.pmap(work_outputs, [(c, m, o) for c in ('Jacobian', 'Gradient') for m in METHODS for o in ORDERS], chunk=2))
     acc.merge(ctx.pmap(work_select, [(mname, p) for mname in SELECT_MAPS for p in ridge.POINT_KINDS], chunk=1, tier=ctx.tier))
@@ -1062,6 +1102,10 @@ def replay(case):
         a = work_callables([(case['form'], case['method'], int(case['order']))])
         bad = [r['detail'] for k, (n, recs) in a.viol.items() for r in recs if r['case'].get('cls') == case.get('cls')]
         return not bad, '%r -> %s' % (case, bad or 'exact')
+    if case.get('part') == 'none-options':
+        a = work_none_options([(case['opts'], case['method'], int(case['order']))])
+        bad = [r['detail'] for k, (n, recs) in a.viol.items() for r in recs if r['case'].get('cls') == case.get('cls')]
+        return not bad, '%r -> %s' % (case, bad or 'within 1e-6')
     if case.get('part') == 'aliased':
         a = work_aliased([(case['k'], case['method'], int(case['order']), case['companion'])])
         bad = [r['detail'] for k, (n, recs) in a.viol.items() for r in recs]
